@@ -56,16 +56,18 @@ func (s *astate) rangeOf(b BitVec, signed bool) (srange, bool) {
 			lr, okL := s.rangeOf(d.l, signed)
 			rr, okR := s.rangeOf(d.r, signed)
 			if okL && okR {
+				// the machine result is the mathematical one only while it fits the operand width
+				fits := func(lo, hi int64) bool { return fitsWidth(lo, hi, len(d.l), signed) }
 				switch d.op {
 				case token.ADD:
 					if lo, ok1 := addOK(lr.lo, rr.lo); ok1 {
-						if hi, ok2 := addOK(lr.hi, rr.hi); ok2 {
+						if hi, ok2 := addOK(lr.hi, rr.hi); ok2 && fits(lo, hi) {
 							return srange{lo, hi}, true
 						}
 					}
 				case token.SUB:
 					if lo, ok1 := addOK(lr.lo, -rr.hi); ok1 {
-						if hi, ok2 := addOK(lr.hi, -rr.lo); ok2 {
+						if hi, ok2 := addOK(lr.hi, -rr.lo); ok2 && fits(lo, hi) {
 							if signed || lo >= 0 {
 								return srange{lo, hi}, true
 							}
@@ -121,6 +123,16 @@ func (s *astate) narrow(b BitVec, signed bool, lo, hi int64) {
 		return
 	}
 	if d, has := opaqueDefs[src]; has {
+		// x+c / x-c can be undone only when the operation cannot have wrapped at the operand width
+		noWrap := func(x BitVec, c int64) bool {
+			r, ok := s.rangeOf(x, signed)
+			if !ok {
+				return false
+			}
+			lo2, ok1 := addOK(r.lo, c)
+			hi2, ok2 := addOK(r.hi, c)
+			return ok1 && ok2 && fitsWidth(lo2, hi2, len(x), signed)
+		}
 		if k, isK := constOfBits(d.r); isK {
 			c := int64(k)
 			if signed {
@@ -128,16 +140,22 @@ func (s *astate) narrow(b BitVec, signed bool, lo, hi int64) {
 			}
 			switch d.op {
 			case token.ADD:
-				s.narrow(d.l, signed, satAddR(lo, -c), satAddR(hi, -c))
+				if noWrap(d.l, c) {
+					s.narrow(d.l, signed, satAddR(lo, -c), satAddR(hi, -c))
+				}
 			case token.SUB:
-				s.narrow(d.l, signed, satAddR(lo, c), satAddR(hi, c))
+				if noWrap(d.l, -c) {
+					s.narrow(d.l, signed, satAddR(lo, c), satAddR(hi, c))
+				}
 			}
 		} else if k, isK := constOfBits(d.l); isK && d.op == token.ADD {
 			c := int64(k)
 			if signed {
 				c = signExt(k, len(d.l))
 			}
-			s.narrow(d.r, signed, satAddR(lo, -c), satAddR(hi, -c))
+			if noWrap(d.r, c) {
+				s.narrow(d.r, signed, satAddR(lo, -c), satAddR(hi, -c))
+			}
 		}
 	}
 	s.setRange(src, signed, lo, hi)
@@ -685,4 +703,15 @@ func fmtSscanf(s string, hi, lo *int) (int, error) {
 		n++
 	}
 	return n, nil
+}
+
+// fitsWidth: every integer of [lo, hi] is representable in w bits (unsigned, or two's complement).
+func fitsWidth(lo, hi int64, w int, signed bool) bool {
+	if w <= 0 || w >= 64 {
+		return w >= 64 && (signed || lo >= 0)
+	}
+	if signed {
+		return lo >= -(int64(1)<<uint(w-1)) && hi <= int64(1)<<uint(w-1)-1
+	}
+	return lo >= 0 && hi <= int64(1)<<uint(w)-1
 }
